@@ -138,6 +138,19 @@ def method(eng, p, o, name, args, kws):
     if k == 'bytesio':
         from . import strmodels
         return strmodels.bytesio_method(eng, p, o, name, args, kws)
+    if k == 'chunkfile':
+        # a readable file-like object: the k-th read() returns file_chunk(k) (assumed contract of file objects: an empty result means end
+        # of file, a short non-empty result does not); bytes or text according to the mode it was opened with
+        from .world import trusted
+        trusted('file-like object: successive read(size) calls return successive chunks, empty exactly at end of file')
+        if name == 'read':
+            from .strmodels import file_chunk_b, file_chunk_s
+            kk = c[2]
+            p.heap[o.oid] = ('chunkfile', c[1], kk + 1)
+            p.calls.append(('file.read', tuple(eng.to_val(p, a) for a in args)))
+            return [(p, SBytes(file_chunk_b(kk)) if c[1] == 'b' else SStr(file_chunk_s(kk)))]
+        if name == 'close':
+            p.calls.append(('file.close', ())); return [(p, None)]
     if k == 'dict':
         if name == 'clear':
             p.heap[o.oid] = ('dict', K(Val, BoolVal(False)), K(Val, V.VNone), Empty(ValSeq)); return [(p, None)]
